@@ -122,7 +122,7 @@ Inductive aclass :=
 | AViewerCounter           (* viewer's excluded-counter list / Active flag <> item not approved *)
 | AViewerUploader          (* viewer's verdict differs from what the uploader did at X = 0 *)
 | AViewerReportFalse       (* report view calls an item excluded that is approved (the uploader sends it) *)
-| AViewerReportStackOmitted. (* report view does not mention an unapproved stack counter of a local report (finding 19) *)
+| AViewerReportStackOmitted. (* report view does not mention an unapproved stack counter of a report (fixed: a1becfe) *)
 
 (* server side: report r (produced by the uploader iff from_uploader) got verdict v *)
 Definition server_check (u : upload_cfg) (from_uploader : bool) (week_ok semver_ok : bool) (r : report) (v : verdict)
@@ -178,11 +178,16 @@ Definition viewer_check (u : upload_cfg) (f : cfile) (s : vsummary) (meta : list
 
 (* ---------------------------------------------------------------- viewer: weekly reports (local.<week>.json, <week>.json) *)
 
-(* newTelemetryReport: per program of a report the summary is computed from
-   the five identity fields and the program's COUNTERS map only; the Stacks
-   of the report are neither shown nor examined *)
+(* newTelemetryReport (after fix a1becfe): per program of a report the summary
+   is computed from the five identity fields and ONE map holding the program's
+   Counters and then its Stacks (a stack key overwrites an equal counter key;
+   in a report the uploader wrote the two key sets are disjoint: plain names /
+   names with a newline); summary() tells stacks from counters by the newline *)
 Definition report_program_file (p : ident * body) : cfile :=
-  mkFile (fst p) (map (fun kv : bytes * Z => (fst kv, 0%N)) (fst (snd p))).
+  let stack_keys := map fst (snd (snd p)) in
+  mkFile (fst p)
+         (map (fun kv : bytes * Z => (fst kv, 0%N))
+              (filter (fun kv : bytes * Z => negb (memb (fst kv) stack_keys)) (fst (snd p)) ++ snd (snd p))).
 
 Definition viewer_report_summary (c : config) (p : ident * body) : vsummary :=
   viewer_summary c (report_program_file p).
